@@ -165,17 +165,15 @@ theorem ginv_addCands (U : Universe) (P : Problem) (r : Req) (src : Node)
       rw [this, a4 pn hpn, hnode]) h2
 
 /-- **one blamed clause with true provenance keeps every edge true** -/
-theorem ginv_addClause (U : Universe) (P : Problem) (org : Org) (cl : ACl) (hp : Prov U P org cl)
+theorem ginv_addClause (U : Universe) (P : Problem) (org : Org) (k : Kind) (hp : KindTrue U P org k)
     (g : RG) (last : List (Nat × Nat)) (h : GInv U P g last) :
-    GInv U P (addClause U org (g, last) cl.kind).1 (addClause U org (g, last) cl.kind).2 := by
-  unfold Prov at hp
+    GInv U P (addClause U org (g, last) k).1 (addClause U org (g, last) k).2 := by
   unfold addClause
-  cases hk : cl.kind with
+  cases k with
   | root => exact h
   | learnt i => exact h
   | excluded v reason =>
-    rw [hk] at hp
-    obtain ⟨s, hs, hfact, _⟩ := hp
+    obtain ⟨s, hs, hfact⟩ := hp
     simp only []
     obtain ⟨hn, _⟩ := node_of_solv org v s hs
     obtain ⟨a1, a2, a3, a4, _⟩ := addNode_spec g (nodeOfOrigin org v)
@@ -185,8 +183,7 @@ theorem ginv_addClause (U : Universe) (P : Problem) (org : Org) (cl : ACl) (hp :
     rw [b4 _ a1, a2, b2, hn]
     exact ⟨s, reason, rfl, rfl, hfact⟩
   | requires p r =>
-    rw [hk] at hp
-    obtain ⟨reqs, cons, vars, h1, h2, _, _, _, _⟩ := hp
+    obtain ⟨reqs, cons, h1, h2⟩ := hp
     simp only []
     have hnd := nodeDeps_of_parent U P org p reqs cons h1
     obtain ⟨a1, a2, a3, a4, _⟩ := addNode_spec g (nodeOfOrigin org p)
@@ -207,8 +204,7 @@ theorem ginv_addClause (U : Universe) (P : Problem) (org : Org) (cl : ACl) (hp :
     · exact ginv_addCands U P r (nodeOfOrigin org p) ⟨reqs, cons, hnd, h2⟩ (reqSorted U r)
         (fun c hc => (mem_reqSorted U r c).mp hc) _ last _ a1 a2 hg1
   | lock l o =>
-    rw [hk] at hp
-    obtain ⟨ls, os, pk, hl, ho, hpk, hlock, hne, _⟩ := hp
+    obtain ⟨ls, os, pk, hl, ho, hpk, hlock, hne⟩ := hp
     simp only []
     obtain ⟨hn, _⟩ := node_of_solv org o os ho
     obtain ⟨_, hls⟩ := node_of_solv org l ls hl
@@ -219,8 +215,7 @@ theorem ginv_addClause (U : Universe) (P : Problem) (org : Org) (cl : ACl) (hp :
     rw [hg1.n0, a2, hn, hls]
     exact ⟨rfl, os, pk, rfl, hpk, hlock, hne⟩
   | forbid a hh pos name =>
-    rw [hk] at hp
-    obtain ⟨s, hs, _, hname, _⟩ := hp
+    obtain ⟨s, hs, hname⟩ := hp
     simp only []
     obtain ⟨hn, _⟩ := node_of_solv org a s hs
     obtain ⟨a1, a2, a3, a4, aed⟩ := addNode_spec g (nodeOfOrigin org a)
@@ -243,8 +238,7 @@ theorem ginv_addClause (U : Universe) (P : Problem) (org : Org) (cl : ACl) (hp :
         hg1.of_addEdge pn _ .forbid l1 a1 (by rw [l2, a2, hn]; exact ⟨b, s, rfl, rfl, l3.trans hname.symm⟩)
       exact ⟨hg2.size, hg2.n0, hg2.n1, hg2.edges, hlast'⟩
   | constrains p c vs =>
-    rw [hk] at hp
-    obtain ⟨reqs, cons, t, h1, h2, h3, h4, _⟩ := hp
+    obtain ⟨⟨reqs, cons, h1, h2⟩, t, h3, h4⟩ := hp
     simp only []
     have hnd := nodeDeps_of_parent U P org p reqs cons h1
     obtain ⟨hn, _⟩ := node_of_solv org c t h3
@@ -255,16 +249,16 @@ theorem ginv_addClause (U : Universe) (P : Problem) (org : Org) (cl : ACl) (hp :
     rw [b4 _ a1, a2, b2, hn]
     exact ⟨⟨reqs, cons, hnd, h2⟩, t, rfl, h4⟩
 
-theorem ginv_fold (U : Universe) (P : Problem) (org : Org) (cls : List ACl) (hp : ∀ cl ∈ cls, Prov U P org cl)
+theorem ginv_fold (U : Universe) (P : Problem) (org : Org) (ks : List Kind) (hp : ∀ k ∈ ks, KindTrue U P org k)
     (acc : RG × List (Nat × Nat)) (h : GInv U P acc.1 acc.2) :
-    GInv U P ((cls.map (·.kind)).foldl (addClause U org) acc).1 ((cls.map (·.kind)).foldl (addClause U org) acc).2 := by
-  induction cls generalizing acc with
+    GInv U P (ks.foldl (addClause U org) acc).1 (ks.foldl (addClause U org) acc).2 := by
+  induction ks generalizing acc with
   | nil => exact h
-  | cons cl rest ih =>
-    simp only [List.map_cons, List.foldl_cons]
+  | cons k rest ih =>
+    simp only [List.foldl_cons]
     apply ih (fun c hc => hp c (List.mem_cons_of_mem _ hc))
     obtain ⟨g, last⟩ := acc
-    exact ginv_addClause U P org cl (hp cl List.mem_cons_self) g last h
+    exact ginv_addClause U P org k (hp k List.mem_cons_self) g last h
 
 theorem ginv_init (U : Universe) (P : Problem) : GInv U P { nodes := #[.root, .unresolved] } [] :=
   ⟨by simp, rfl, rfl, fun e he => by simp at he, fun _ _ hm => by cases hm⟩
@@ -355,24 +349,26 @@ theorem dropUnresolved_edges (U : Universe) (P : Problem) (g : RG) (last : List 
     obtain ⟨e, he, rfl⟩ := hx
     exact (h.edges e he).2.2
 
+/-- **the graph built from clause kinds that state true facts has only true edges** -/
+theorem buildGraph_kinds_true (U : Universe) (P : Problem) (org : Org) (ks : List Kind) (hk : ∀ k ∈ ks, KindTrue U P org k) :
+    ∀ x ∈ nodeEdges (buildGraph U org ks), EdgeTrue U P x.1 x.2.1 x.2.2 := by
+  unfold buildGraph
+  simp only []
+  have h := ginv_fold U P org ks hk ({ nodes := #[.root, .unresolved] }, []) (ginv_init U P)
+  exact dropUnresolved_edges U P _ _ h
+
 /-- **C03 (a) for the exact model of `Conflict::graph`**: whatever clauses of an accepted history are blamed, every edge
     of the conflict graph built from them states a true fact of the provider's data. -/
 theorem buildGraph_edges_true (U : Universe) (P : Problem) (st : St) (hs : SInv U P st) (ids : List Nat)
     (hids : ∀ id ∈ ids, id < st.db.length) :
     ∀ x ∈ nodeEdges (buildGraph U st.origins (ids.map (fun id => (st.db.getD id default).kind))), EdgeTrue U P x.1 x.2.1 x.2.2 := by
-  unfold buildGraph
-  simp only []
-  have hcls : ∀ cl ∈ ids.map (fun id => st.db.getD id default), Prov U P st.origins cl := by
-    intro cl hcl
-    obtain ⟨id, hid, rfl⟩ := List.mem_map.mp hcl
-    apply hs.prov
-    have hlt := hids id hid
-    rw [List.getD_eq_getElem?_getD, List.getElem?_eq_getElem hlt]
-    exact List.getElem_mem hlt
-  have hmap : ids.map (fun id => (st.db.getD id default).kind) = (ids.map (fun id => st.db.getD id default)).map (·.kind) := by
-    simp [List.map_map, Function.comp_def]
-  rw [hmap]
-  have h := ginv_fold U P st.origins _ hcls ({ nodes := #[.root, .unresolved] }, []) (ginv_init U P)
-  exact dropUnresolved_edges U P _ _ h
+  apply buildGraph_kinds_true
+  intro k hk
+  obtain ⟨id, hid, rfl⟩ := List.mem_map.mp hk
+  apply prov_kindTrue
+  apply hs.prov
+  have hlt := hids id hid
+  rw [List.getD_eq_getElem?_getD, List.getElem?_eq_getElem hlt]
+  exact List.getElem_mem hlt
 
 end Resolvo.Render
